@@ -277,8 +277,9 @@ def bilin_inv(
     y = np.zeros_like(f) + 0.5 * jmax
 
     for _t in range(maxiter):
-        i = x.astype("i")
-        j = y.astype("i")
+        # Keep the cell inside the arrays, an iterate beyond the edge extrapolates the edge cell
+        i = np.clip(x.astype("i"), 0, imax - 2)
+        j = np.clip(y.astype("i"), 0, jmax - 2)
         p, q = x - i, y - j
 
         # Bilinear estimate of F[x,y] and G[x,y]
